@@ -378,6 +378,22 @@ pub fn run() {
                     })));
                     "ok".into()
                 }
+                ["actorkill", which] => {
+                    // the named actor dies while handling its next message (a panic inside its task): its channel is closed from then
+                    // on and nobody gets an answer from it any more
+                    let which = which.to_string();
+                    crate::shared_state::verif_actor::set_hook(Some(Box::new(move |actor, _kind| {
+                        if actor == which {
+                            panic!("verif: actor {} killed", which);
+                        }
+                    })));
+                    "ok".into()
+                }
+                ["cancel"] => {
+                    // the agent's shutdown signal; the process (and this control loop) stays, as do connections already accepted
+                    shared_state.cancel_cancellation_token();
+                    "ok".into()
+                }
                 ["khook", "off"] => {
                     crate::shared_state::verif_actor::set_hook(None);
                     "ok".into()
